@@ -192,9 +192,114 @@ def structures(rep, tier, timeout):
                         extra_nominal={"point_mass_locations[0,0]": 0.2, "point_mass_locations[0,1]": -1.1, "point_mass_locations[0,2]": -0.3, "amp": 100.0})
 
 
+def aero(rep, tier, timeout):
+    """Aerodynamic states of the mirror-image configuration (full span, arbitrary asymmetric geometry and flow) and
+    left-half vs right-half symmetric models."""
+    from symoas import pipe
+
+    cfgs = [("full 2x3", 2, 3, False), ("symmetric halves 2x2", 2, 2, True)]
+    if tier == "thorough":
+        cfgs += [("full 3x3", 3, 3, False), ("symmetric halves 2x3", 2, 3, True), ("full 2x5", 2, 5, False)]
+    for (lab, nx, ny, symm) in cfgs:
+        sA = K.surface(nx, ny, symm)
+        sB = K.surface(nx, ny, symm, right=True) if symm else sA
+        PA = pipe.vlm_states([sA], rotational=True)
+        PB = pipe.vlm_states([sB], rotational=True) if symm else PA
+        PA.encode(rep)
+        m = symarray("wing_def_mesh", (nx, ny, 3))
+        if symm:
+            for i in range(nx):
+                m[i, ny - 1, 1] = ZERO
+        nym = ny - 1
+        npan = (nx - 1) * nym
+        al, be, v, rho = var("alpha"), (ZERO if symm else var("beta")), var("v"), var("rho")
+        om, cg = symarray("omega", (3,)), symarray("cg", (3,))
+        if symm:  # a symmetric model only represents symmetric motion: roll and yaw rates vanish, cg on the plane
+            om = np.array([ZERO, om[1], ZERO], dtype=object)
+            cg = np.array([cg[0], ZERO, cg[2]], dtype=object)
+        gam = symarray("circulations", (npan,))
+        units = {"alpha": "deg", "beta": "deg", "v": "m/s", "rho": "kg/m**3", "omega": "rad/s", "cg": "m"}
+        nsA, _ = PA.run({"alpha": [al], "beta": [be], "v": [v], "rho": [rho], "omega": om, "cg": cg, "circulations": gam, "wing_def_mesh": m}, units=units)
+        g2 = gam.reshape(nx - 1, nym)[:, ::-1].ravel()
+        nsB, _ = PB.run({"alpha": [al], "beta": [-be], "v": [v], "rho": [rho], "omega": om * np.array([-1, 1, -1], dtype=object), "cg": cg * MIR,
+                         "circulations": g2, "wing_def_mesh": mirror_mesh(m)}, units=units)
+        pm = lambda r: (r // nym) * nym + (nym - 1 - r % nym)
+        obs = []
+        for r in range(npan):
+            obs.append(oblig.Ob("rhs[%d]" % r, lhs=nsB["rhs"][pm(r)], rhs=nsA["rhs"][r], meta={"family": "right-hand side of the mirror-image configuration", "kind": "rhs", "idx": [r]}))
+            for c in range(npan):
+                obs.append(oblig.Ob("mtx[%d,%d]" % (r, c), lhs=nsB["mtx"][pm(r), pm(c)], rhs=nsA["mtx"][r, c],
+                                    meta={"family": "influence matrix of the mirror-image configuration", "kind": "mtx", "idx": [r, c]}))
+        FA, FB = nsA["wing_sec_forces"], nsB["wing_sec_forces"]
+        for idx in np.ndindex(nx - 1, nym, 3):
+            obs.append(oblig.Ob("sec_forces%s" % list(idx), lhs=FB[idx[0], nym - 1 - idx[1], idx[2]], rhs=FA[idx] * (-1 if idx[2] == 1 else 1),
+                                meta={"family": "sectional forces of the mirror-image configuration are the mirror image", "kind": "F", "idx": list(idx)}))
+
+        def rp(ob, env, sA=sA, sB=sB, m=m, symm=symm, nym=nym, om=om, cg=cg):
+            return replay_aero(ob, env, sA, sB, m, symm, nym, om, cg)
+
+        nominal = {}
+        mv = K.rect_mesh(nx, ny, symm, jitter=0.25, seed=7)
+        for idx in np.ndindex(*mv.shape):
+            nominal["wing_def_mesh[%s]" % ",".join(map(str, idx))] = float(mv[idx]) + (0.07 * idx[1] if idx[2] == 0 and not symm else 0.0)
+        nominal.update({"cg[0]": 0.5, "cg[1]": 0.3, "cg[2]": 0.1, "omega[0]": 0.02, "omega[1]": 0.03, "omega[2]": -0.01})
+        nominal.update({"circulations[%d]" % i: -0.7 - 0.1 * i for i in range(npan)})
+        run_obligations(rep, "aero states mirror [%s]" % lab, obs, timeout, replay=rp, levels=(1, 2), relate=[], nominal=nominal,
+                        family=lambda ob, symm=symm: "aero states (%s): %s" % ("left-half vs right-half symmetric model" if symm else "full span", ob.meta["family"]),
+                        fixed={"alpha": 3.0, "beta": 4.0, "v": 10.0, "rho": 1.1})
+
+
+def replay_aero(ob, env, sA, sB, m, symm, nym, om, cg):
+    import openmdao.api as om_
+    from openaerostruct.aerodynamics.geometry import VLMGeometry
+    from openaerostruct.aerodynamics.states import VLMStates
+
+    envf = model.FillEnv(env)
+    mv = num_inputs({"m": m}, envf)["m"]
+    omv = num_inputs({"o": om}, envf)["o"]
+    cgv = num_inputs({"c": cg}, envf)["c"]
+    beta = 0.0 if symm else envf["beta"]
+
+    def run(s, mesh, beta, omega, cgv):
+        prob = om_.Problem(reports=False)
+        ivc = om_.IndepVarComp()
+        ivc.add_output("alpha", val=float(envf["alpha"]), units="deg")
+        ivc.add_output("beta", val=float(beta), units="deg")
+        ivc.add_output("v", val=float(envf["v"]), units="m/s")
+        ivc.add_output("rho", val=float(envf["rho"]), units="kg/m**3")
+        ivc.add_output("omega", val=omega, units="rad/s")
+        ivc.add_output("cg", val=cgv, units="m")
+        ivc.add_output("wing_def_mesh", val=mesh, units="m")
+        prob.model.add_subsystem("ivc", ivc, promotes=["*"])
+        prob.model.add_subsystem("geom", VLMGeometry(surface=s), promotes_inputs=[("def_mesh", "wing_def_mesh")], promotes_outputs=[("normals", "wing_normals")])
+        prob.model.add_subsystem("states", VLMStates(surfaces=[s], rotational=True), promotes=["*"])
+        prob.setup()
+        prob.run_model()
+        return prob
+
+    pa = run(sA, mv, beta, omv, cgv)
+    pb = run(sB, mv[:, ::-1, :] * np.array([1.0, -1.0, 1.0]), -beta, omv * np.array([-1.0, 1.0, -1.0]), cgv * np.array([1.0, -1.0, 1.0]))
+    pm = lambda r: (r // nym) * nym + (nym - 1 - r % nym)
+    k = ob.meta["kind"]
+    if k == "mtx":
+        r, c = ob.meta["idx"]
+        a, b = pa.get_val("mtx")[r, c], pb.get_val("mtx")[pm(r), pm(c)]
+        return model.differs(a, b, 1e-7), "AIC[%d,%d] = %.9g, mirror-image configuration %.9g" % (r, c, a, b)
+    if k == "rhs":
+        r = ob.meta["idx"][0]
+        a, b = pa.get_val("rhs")[r], pb.get_val("rhs")[pm(r)]
+        return model.differs(a, b, 1e-7), "rhs[%d] = %.9g, mirror-image configuration %.9g" % (r, a, b)
+    idx = tuple(ob.meta["idx"])
+    a = pa.get_val("wing_sec_forces")[idx] * (-1 if idx[2] == 1 else 1)
+    b = pb.get_val("wing_sec_forces")[idx[0], nym - 1 - idx[1], idx[2]]
+    return model.differs(a, b, 1e-6), "mirrored sec_forces%s = %.9g, mirror-image configuration %.9g (converged)" % (list(idx), a, b)
+
+
 def run(tier, seed, only=None):
     rep = report.Report(PID, tier, seed)
     timeout = 20.0 if tier == "quick" else 60.0
+    if not only or "aero" in only:
+        aero(rep, tier, timeout)
     if not only or "geom" in only:
         geometry(rep, tier, timeout)
     if not only or "struct" in only:
